@@ -9,33 +9,33 @@ import (
 )
 
 type Frame struct {
-	Fn      *ssa.Function
-	Block   *ssa.BasicBlock
-	Prev    *ssa.BasicBlock
-	Idx     int
-	Locals  map[ssa.Value]Value
-	Defers  []*deferred
-	Call    ssa.Instruction // call instruction in the caller frame (nil for entry)
-	Bind    []Value         // free variables (closures)
-	LoopHit map[*ssa.BasicBlock]int
-	Cut     map[*ssa.BasicBlock]bool // loop headers already cut on this path
-	InDefer bool
-	Results Value // saved results while running defers
-	deferRet bool
+	Fn          *ssa.Function
+	Block       *ssa.BasicBlock
+	Prev        *ssa.BasicBlock
+	Idx         int
+	Locals      map[ssa.Value]Value
+	Defers      []*deferred
+	Call        ssa.Instruction // call instruction in the caller frame (nil for entry)
+	Bind        []Value         // free variables (closures)
+	LoopHit     map[*ssa.BasicBlock]int
+	Cut         map[*ssa.BasicBlock]bool // loop headers already cut on this path
+	InDefer     bool
+	Results     Value // saved results while running defers
+	deferRet    bool
 	IsDeferCall bool
-	GhostIn  map[string]Value // values of named things at entry (params)
-	retDst   ssa.Value
-	OnReturn func(ex *Exec, st *State, res Value) Value
-	CalleeName string
-	CallArgs []Value
-	Args     []Value
-	Names    map[string]Value
+	GhostIn     map[string]Value // values of named things at entry (params)
+	retDst      ssa.Value
+	OnReturn    func(ex *Exec, st *State, res Value) Value
+	CalleeName  string
+	CallArgs    []Value
+	Args        []Value
+	Names       map[string]Value
 }
 
 type deferred struct {
-	Fn   Value
-	Args []Value
-	Call *ssa.CallCommon
+	Fn    Value
+	Args  []Value
+	Call  *ssa.CallCommon
 	Instr ssa.Instruction
 }
 
@@ -51,22 +51,22 @@ type Event struct {
 }
 
 type State struct {
-	Frames  []*Frame
-	Heap    map[*Object]Value
-	PC      []*Term
-	Ghost   map[string]Value
-	Events  []*Event
-	PreHeap map[*Object]Value
-	PreGhost map[string]Value
-	Notes   []string // imprecision notes
-	ID      int
-	Depth   int
-	Dead    bool
-	Held    map[string]int
-	DagObjs map[string]*Object
-	Open    map[*Object]bool // ancestor walkers whose producer has not finished
-	Written map[*Object]bool // pre-existing objects that were stored to or havocked
-	CutEvents int // number of events recorded when the innermost cut loop was entered
+	Frames     []*Frame
+	Heap       map[*Object]Value
+	PC         []*Term
+	Ghost      map[string]Value
+	Events     []*Event
+	PreHeap    map[*Object]Value
+	PreGhost   map[string]Value
+	Notes      []string // imprecision notes
+	ID         int
+	Depth      int
+	Dead       bool
+	Held       map[string]int
+	DagObjs    map[string]*Object
+	Open       map[*Object]bool // ancestor walkers whose producer has not finished
+	Written    map[*Object]bool // pre-existing objects that were stored to or havocked
+	CutEvents  int              // number of events recorded when the innermost cut loop was entered
 	LastReturn string
 }
 
@@ -189,18 +189,18 @@ func (st *State) PreObjVal(o *Object) Value {
 }
 
 type Obligation struct {
-	Name   string
-	Kind   string
-	Fn     string
-	Pos    token.Position
-	PC     []*Term
-	Goal   *Term
-	Props  []string
-	Note   string
+	Name      string
+	Kind      string
+	Fn        string
+	Pos       token.Position
+	PC        []*Term
+	Goal      *Term
+	Props     []string
+	Note      string
 	Imprecise bool
-	Clause *Clause
-	Snap   *replaySnap
-	Entry  string
+	Clause    *Clause
+	Snap      *replaySnap
+	Entry     string
 	// results
 	Result string // "unsat"(discharged) | "sat" | "unknown" | "folded"
 	Solver string
